@@ -98,12 +98,17 @@ class Constant(ModelNode):
                 return None
 
     def dependencies(self):
-        def sub_(x, y):
-            return x.replace(y, " ")
+        return _expression_symbols(self.value)
 
-        for symbol in six.reduce(sub_, "()+-*/<>|", self.value).split():
-            if not symbol.isdigit():
-                yield symbol
+
+def _expression_symbols(expression):
+    """ Names (and non-decimal literals) an expression text refers to. """
+    def sub_(x, y):
+        return x.replace(y, " ")
+
+    for symbol in six.reduce(sub_, "()+-*/<>|", str(expression)).split():
+        if not symbol.isdigit():
+            yield symbol
 
 
 class EnumMember(Constant):
@@ -189,6 +194,12 @@ class StructMember(Typedef):
         """amount of bytes to add before next field. If field dynamic: negative alignment of next field"""
         self.padding = None
 
+    def dependencies(self):
+        yield self.type_name
+        if self.size:
+            for symbol in _expression_symbols(self.size):
+                yield symbol
+
     @property
     def is_array(self):
         return self.bound or self.size or self.greedy
@@ -231,6 +242,11 @@ class UnionMember(Typedef):
     def __init__(self, name, type_name, discriminator, definition=None, docstring=None):
         super(UnionMember, self).__init__(name, type_name, definition, docstring)
         self.discriminator = discriminator
+
+    def dependencies(self):
+        yield self.type_name
+        for symbol in _expression_symbols(self.discriminator):
+            yield symbol
 
 
 """ Composite kinds """
